@@ -46,7 +46,7 @@ func canConsume(gs *ref.Spec, node string) bool {
 func runC05(c *sim.Ctx, t *testing.T) {
 	sim.Install(c)
 	defer sim.Uninstall()
-	cfg := genCfg{native: true, failOps: true, nullRet: true, permanents: true, unknownNode: true, guards: true, loops: true, maxNodes: 5, errorNode: true}
+	cfg := genCfg{native: true, failOps: true, nullRet: true, permanents: true, unknownNode: true, guards: true, loops: true, maxNodes: 5, errorNode: true, sameStub: true}
 	gs := genSpec(c, cfg)
 	spec, err := compile(gs)
 	if err != nil {
